@@ -8,7 +8,7 @@ import itertools
 import os
 from .core import AnalysisError, VERIF
 from .terms import Unsupported
-from .guards import Ctx, And, atoms_of, ev, show_f
+from .guards import Ctx, And, atoms_of, ev, show_f, show_key
 from .summ import Sym, ListV, vkey, show_value
 from .effects import EditHooks, GuardedSummarizer
 
@@ -45,6 +45,9 @@ class RefHooks(EditHooks):
             return Sym(("aslist", vkey(sm.expr(f.value, st))))
         if fname == "iter" and len(args) == 1 and not kwargs:
             return args[0]
+        # list(dict.fromkeys(X)): X without its later duplicates, order kept
+        if fname == "list" and len(node.args) == 1 and isinstance(node.args[0], ast.Call) and ast.unparse(node.args[0].func) == "dict.fromkeys" and len(node.args[0].args) == 1:
+            return Sym(("DEDUP", vkey(sm.expr(node.args[0].args[0], st))))
         # a deep copy has the value of its argument; who may be written through whom is the alias rules' business (C17-R1, C19-R3)
         if fname in ("copy.deepcopy", "deepcopy") and len(args) == 1 and not kwargs:
             return args[0]
@@ -55,7 +58,10 @@ class RefHooks(EditHooks):
             if all(isinstance(x, ast.Call) and isinstance(x.func, ast.Attribute) and not x.args for x in (a, b)) and a.func.attr == "values" and b.func.attr == "keys" \
                     and ast.dump(a.func.value) == ast.dump(b.func.value):
                 return Sym(("INVERSE", vkey(sm.expr(a.func.value, st))))
-        return super().call(sm, node, fname, args, kwargs, st)
+        r = super().call(sm, node, fname, args, kwargs, st)
+        if isinstance(r, Sym) and isinstance(r.key, tuple) and len(r.key) == 4 and r.key[0] == "graph":
+            return Sym(r.key[:3] + (0,))      # the result of a graph call, wherever in the file the call stands
+        return r
 
     def comprehension(self, sm, n, st):
         # {v: k for k, v in D.items()}: the inverse map of D
@@ -121,8 +127,10 @@ def show_effect(x):
     return " ".join(show_value(y)[:80] if not isinstance(y, str) else y for y in x)
 
 
-def compare(model, roles_, code_fn, ref_fn, rep, rule, construct, where, what, free=(), mod=None):
-    """-> True when every feasible pair of paths agrees; violations are reported with the first differing effect"""
+def compare(model, roles_, code_fn, ref_fn, rep, rule, construct, where, what, free=(), mod=None, closed=False):
+    """-> True when every feasible pair of paths agrees; violations are reported with the first differing effect.
+    closed: the code may decide only on conditions and iterate only over collections the reference names; anything else
+    is a shape this comparison does not pair reliably and is an analysis error, never a verdict"""
     nested = {x.name for x in ast.walk(ref_fn) if isinstance(x, ast.FunctionDef)}
     vocab = frozenset(c.func.id for c in ast.walk(ref_fn) if isinstance(c, ast.Call) and isinstance(c.func, ast.Name)) - nested
 
@@ -183,6 +191,21 @@ def compare(model, roles_, code_fn, ref_fn, rep, rule, construct, where, what, f
         u = unread(sig) or unread([e[1] for e in lf.events if e[0] == "loop"])
         if u:
             raise AnalysisError("%s: the code contains a %s the summary engine does not read" % (what, {"comp": "comprehension", "lambda": "lambda"}.get(u, u)))
+
+    if closed:
+        def vocab_of(ls):
+            at, lp = set(), set()
+            for lf, (lits, rest), _ in ls:
+                at |= set(lits)
+                for g in rest:
+                    at |= set(atoms_of(g))
+                lp |= {repr(vkey(e[1])) for e in lf.events if e[0] == "loop"}
+            return at, lp
+        (ca, cloops), (ra_, rloops) = vocab_of(cs), vocab_of(rs)
+        if ca - ra_:
+            raise AnalysisError("%s: decides on a condition the reference does not name: %s" % (what, show_key(sorted(ca - ra_, key=repr)[0])[:120]))
+        if cloops - rloops:
+            raise AnalysisError("%s: iterates over a collection the reference does not name: %s" % (what, sorted(cloops - rloops)[0][:120]))
 
     def together(a, b):
         la, ra = a
